@@ -104,7 +104,7 @@ Lemma renew1_form s old new crev cfsize cmroot nrev nfsize nmroot nws mold fault
            (move_rows old new (link_from old new
               (aset old (with_to (with_rev c crev cfsize cmroot) (Some new))
                  (aset new (nc1 nrev nfsize nmroot nws) (t1 (dbs s))))))))
-           (aset new (cache_get s old) (cache s)).
+           (cdel old (aset new (cache_get s old) (cache s))).
 Proof.
   intros Lc. cbn [step]. intros H. apply outcome_ok in H as (d' & E & ->); [|apply fok_m_renew1].
   unfold m_renew1 in E.
@@ -289,7 +289,8 @@ Proof.
   - eexists. cbn [dbs set_cache set_dbs set_t1 t1]. rewrite LK.
     replace (new =? old) with false by lia. rewrite N.eqb_refl. split; [reflexivity|].
     cbn [with_rows with_from with_to with_rev rows fsize mroot rto rfrom nc1]. repeat split; auto; congruence.
-  - unfold cache_get at 1; cbn [cache set_cache]. now rewrite alookup_aset_same.
+  - unfold cache_get at 1; cbn [cache set_cache]. rewrite alookup_cdel.
+    replace (new =? old) with false by lia. now rewrite alookup_aset_same.
   - eexists. cbn [dbs set_cache set_dbs set_t1 t1]. rewrite LK, N.eqb_refl. split; [reflexivity|].
     cbn [with_rows with_to with_rev rows rto rev]. auto.
 Qed.
